@@ -89,8 +89,42 @@ def kept_text(chk, pd, seed):
     src = [KEPT_SRC]
     for i, a in enumerate(KEPT_ANNOS):
         src.append("def k%d(p0: %s, p1: %s = None, *, p2: %s = 1, p3=None) -> %s:\n    return None\n\n\n" % (i, a, a, a, a))
+    # ... and classes of another module inside builtin generics and `|` unions (PEP 585 / 604), which must be imported
+    oname = "c13other_%d" % (seed % 1000)
+    pd.load(oname, "class Foo:\n    pass\n\n\nclass Bar:\n    class Inner:\n        pass\n")
+    src[0] = "import %s\n" % oname + src[0]
+    cross = ["list[%s.Foo]" % oname, "%s.Foo | None" % oname, "dict[str, %s.Bar.Inner]" % oname, "tuple[%s.Foo, ...]" % oname,
+             "List[%s.Foo]" % oname]
+    for j, a in enumerate(cross):
+        src.append("def x%d(p0: %s, p1: %s = None) -> %s:\n    return None\n\n\n" % (j, a, a, a))
     name = "c13kept_%d" % (seed % 1000)
     mod, _ = pd.load(name, "".join(src))
+    import builtins
+    for j, a in enumerate(cross):
+        func = getattr(mod, "x%d" % j)
+        chk.evaluations += 1
+        case = {"annotation": a, "function": "x%d" % j}
+        try:
+            text = build_module_stubs_from_traces([CallTrace(func, {"p0": int, "p1": int}, int)], 0)[name].render()
+            tree = ast.parse(text)
+        except Exception as e:
+            chk.fail("kept-text", dict(case, error=repr(e)[:300]))
+            continue
+        provided = set(dir(builtins)) | {"Cls"}
+        for n in tree.body:
+            if isinstance(n, ast.ImportFrom):
+                provided |= {al.asname or al.name for al in n.names}
+            elif isinstance(n, ast.Import):
+                provided |= {(al.asname or al.name).split(".")[0] for al in n.names}
+        fn = next(n for n in tree.body if isinstance(n, ast.FunctionDef))
+        used = set()
+        for an in [x.annotation for x in fn.args.args + fn.args.kwonlyargs] + [fn.returns]:
+            if an is not None:
+                used |= {n.id for n in ast.walk(an) if isinstance(n, ast.Name)}
+        missing = sorted(used - provided)
+        if missing:
+            chk.fail("kept-text", dict(case, detail="the kept annotation uses names the stub does not provide", missing=missing, stub=text[:600]))
+        chk.nontriv("kept-text|" + a)
     norm = lambda text: ast.dump(ast.parse(text, mode="eval").body)
     for i, a in enumerate(KEPT_ANNOS):
         func = getattr(mod, "k%d" % i)
